@@ -668,8 +668,11 @@ func (st *State) evalBinary(x *ast.BinaryExpr) Val {
 	if x.Op == token.SHL || x.Op == token.SHR {
 		return st.shift(x.Op.String(), a, b, t, st.typeOf(x.Y), x.Pos(), exprStr(x))
 	}
+	if classify(t) == tcString && x.Op == token.ADD {
+		return st.concat(a, b, t)
+	}
 	if classify(t) == tcString {
-		panic(vcErr("string concatenation not supported"))
+		panic(vcErr("unsupported string operator"))
 	}
 	if classify(t) == tcFloat {
 		panic(vcErr("float arithmetic not supported"))
@@ -1024,6 +1027,27 @@ func (st *State) convert(v Val, from, to types.Type, pos token.Pos, what string)
 		h := st.heapGet(elemHeapName(types.Typ[types.Uint8], Comp{Path: ""}), "(Array Int (Array Int Int))")
 		st.assume(fmt.Sprintf("(forall ((g_k Int)) (! (= (select %s g_k) (select (select %s %s) (+ %s g_k))) :pattern ((select %s g_k))))", c, h, v.arr(), v.off(), c))
 		return mkString(to, c, "0", v.length())
+	case ct == tcSlice && cf == tcString && isRuneSlice(to):
+		// []rune(s): a fresh slice of the decoded runes (element-wise decoding is not modelled: length and validity only)
+		st.fc.V.utf8Prelude()
+		st.fc.V.addPrelude("u8count", "(define-fun-rec g_u8count ((c (Array Int Int)) (p Int) (e Int)) Int (ite (>= p e) 0 (+ 1 (g_u8count c (+ p (g_utf8_width c p e)) e))))")
+		n := st.define("nrunes", "Int", sApp("g_u8count", v.content(), v.soff(), sAdd(v.soff(), v.length())))
+		st.assume(sAnd(sCmp("<=", "0", n), sCmp("<=", n, v.length())))
+		arr := st.allocRef()
+		name := elemHeapName(types.Typ[types.Int32], Comp{Path: ""})
+		h := st.heapGet(name, "(Array Int (Array Int Int))")
+		row := st.fc.fresh("runes", "(Array Int Int)")
+		st.assume(fmt.Sprintf("(forall ((g_k Int)) (! (and (<= 0 (select %s g_k)) (<= (select %s g_k) 1114111)) :pattern ((select %s g_k))))", row, row, row))
+		st.noteWrite(name, arr)
+		st.heapSet(name, "(Array Int (Array Int Int))", sStore(h, arr, row))
+		st.fc.noteAssumption("[]rune(s) yields utf8.RuneCountInString(s) valid code points; their values are not related to s in the model")
+		return mkSlice(to, arr, "0", n, n)
+	case ct == tcString && cf == tcSlice && isRuneSlice(from):
+		c := st.fc.fresh("runestr", "(Array Int Int)")
+		ln := st.fc.fresh("slen", "Int")
+		st.assume(sAnd(sCmp("<=", v.length(), ln), sCmp("<=", ln, sMul("4", v.length()))))
+		st.fc.noteAssumption("string([]rune) yields between len and 4*len bytes; the content is not related to the runes in the model")
+		return mkString(to, c, "0", ln)
 	case ct == tcSlice && (cf == tcString || cf == tcTParamSeq):
 		// []byte(s): fresh array with the same content
 		arr := st.allocRef()
@@ -1099,4 +1123,29 @@ func (st *State) shiftAmounts(a string) []string {
 		out = append(out, m[1])
 	}
 	return out
+}
+
+// concat models string concatenation: a fresh immutable content defined pointwise.
+func (st *State) concat(a, b Val, t types.Type) Val {
+	if n, ok := isNum(a.length()); ok && n.Sign() == 0 {
+		return b
+	}
+	if n, ok := isNum(b.length()); ok && n.Sign() == 0 {
+		return a
+	}
+	c := st.fc.fresh("cat", "(Array Int Int)")
+	st.assume(fmt.Sprintf("(forall ((g_k Int)) (! (= (select %s g_k) %s) :pattern ((select %s g_k))))", c,
+		sIte(sCmp("<", "g_k", a.length()), a.at("g_k"), b.at(sSub("g_k", a.length()))), c))
+	ln := st.define("slen", "Int", sAdd(a.length(), b.length()))
+	st.assume(sCmp("<", ln, sNum(pow2(maxLenBits))))
+	return mkString(t, c, "0", ln)
+}
+
+func isRuneSlice(t types.Type) bool {
+	sl, ok := t.Underlying().(*types.Slice)
+	if !ok {
+		return false
+	}
+	b, ok := sl.Elem().Underlying().(*types.Basic)
+	return ok && b.Kind() == types.Int32
 }
